@@ -14,7 +14,8 @@ HARNESSES = [(PKG, HARNESS, "c11"), (PKG_V, HARNESS_V, "c11v")]
 REQUIRED = ["entries_injective", "einv_fresh", "bit_set_get", "bit_total", "served_list_signed_and_fresh", "list_signed_in_same_transaction",
             "set_monotone", "served_bit_never_cleared", "revoke_idempotent", "revoked_forever_network", "revocation_before_credential",
             "issuer_only", "stored_revocations_accepted", "network_revocation_is_by_issuer", "forged_revocations_rejected",
-            "foreign_prefix_witness", "revoked_forever_local", "revoke_effective", "revoked_forever_remote", "refresh_after_revocation_pins",
+            "foreign_prefix_witness", "issuer_only_stmt_false", "issuer_only_partial", "nuts_validators_enforce_prefix",
+            "credential_never_panics", "revoked_forever_local", "revoke_effective", "revoked_forever_remote", "refresh_after_revocation_pins",
             "cache_sound", "status_only_from_named_list", "update_refuses_other_list", "fact_bitstring_arithmetic", "fact_constants",
             "fact_env_ok", "fact_entry_structure", "fact_revoke_and_credential_structure", "fact_status_verifier_structure",
             "fact_register_and_verify_order"]
@@ -291,6 +292,17 @@ def run(ctx):
         "SQL substrate: a transaction is atomic; SELECT … FOR UPDATE keeps the selected row locked until commit/rollback; primary keys are enforced",
         "signatures: Sign(kid, body) verifies under VerifySignature (hypothesis of served_list_signed); a verifying revocation proof was made with the resolved key (EUF, trusted base)",
         "a verifier's download of a status list URL of a modelled node is answered by that node's Credential() (HTTP transport is honest for the composed theorems)",
+    ]
+    ctx.notes += [
+        "known finding C11:foreign-id-prefix (open): Lean foreign_prefix_witness / issuer_only_stmt_false; issuer_only_partial holds for id-prefixed credentials",
+        "observed while building the model (outside the property, not findings): (1) gorm's Order(\"page\").Last() orders by page ASC, subject_id DESC, so after "
+        "the first roll-over every Entry() starts at page 1 and only reaches the current page through duplicate-key retries (one failed transaction per "
+        "earlier page); uniqueness is unaffected (entries_injective covers any row the select returns). (2) OnConflict{UpdateAll} does not update the "
+        "autoCreateTime column created_at, so an external list is re-downloaded at every verification once its FIRST download is older than "
+        "maxAgeExternal. (3) 'reason' of a CredentialRevocation is not defined in the JSON-LD context and therefore not covered by the signature. "
+        "(4) update()/verify() do not compare the status list credential's issuer with the issuer of the credential being checked (the property only "
+        "demands that the list is the one the credential names). (5) a status_list_credential row stored for a URL that later becomes a page URL of a "
+        "local issuer would make Entry() retry forever (duplicate key on the credential record); not reachable through the node's own download path.",
     ]
     max_index = (facts or {}).get("maxBitstringIndex", 131071)
     min_left = (facts or {}).get("minTimeUntilExpired", 21600)
